@@ -1,3 +1,5 @@
 import MV.Model.Par
 import MV.Proof.ParScan
+import MV.Proof.ParSort
 import MV.Props.C13a
+import MV.Props.C13b
